@@ -341,15 +341,19 @@ class HistogramND(HistogramBase):
             return ixbins
 
     def fill(self, value: ArrayLike, weight: float = 1, **kwargs):
-        self._coerce_dtype(type(weight))
         value_array = np.asarray(value)
+        if value_array.dtype.kind == "f" and np.isnan(value_array).any():
+            # Same as in construction and fill_n: rows with NaN's are skipped
+            return None
+        self._coerce_dtype(type(weight))
         for i, binning in enumerate(self._binnings):
             if binning.is_adaptive():
                 bin_map = binning.force_bin_existence(value_array[i])
                 self._reshape_data(binning.bin_count, bin_map, i)
         ixbin = self.find_bin(value_array, **kwargs)
-        if ixbin is None and self.keep_missed:
-            self._missed += weight
+        if ixbin is None:
+            if self.keep_missed:
+                self._missed += weight
         else:
             self._frequencies[ixbin] += weight
             self._errors2[ixbin] += weight**2
